@@ -142,12 +142,13 @@ Fixpoint glob (fuel : nat) (p s : str) : bool :=
 (* fnmatch(pattern, string, 0) for patterns made of literals, '*' and '?' (no '[' and no backslash) *)
 Definition fnm (p s : str) : bool := glob (2 * (List.length p + List.length s) + 2) p s.
 
-(* iauth_xreply_ok(req, name) > 0 : first slot whose service name matches case-insensitively decides *)
+(* iauth_xreply_ok(req, name) > 0 : the first CONFIGURED slot whose service name matches case-insensitively decides
+   (a service dropped by a reload no longer counts: D24) *)
 Fixpoint xreply_ok (ss : list (option svc)) (slot : N) (name : str) (r : req) : bool :=
   match ss with
   | [] => false
   | None :: rest => xreply_ok rest (slot + 1) name r
-  | Some s :: rest => if ci_eq name (s_name s) then N.testbit (okm r) slot else xreply_ok rest (slot + 1) name r
+  | Some s :: rest => if s_conf s && ci_eq name (s_name s) then N.testbit (okm r) slot else xreply_ok rest (slot + 1) name r
   end.
 
 Definition rule_matches (ss : list (option svc)) (ru : rule) (r : req) : bool :=
